@@ -180,17 +180,22 @@ func (s *shardNodeReader) Read(p []byte) (int, error) {
 }
 
 func (s *shardNodeReader) Seek(offset int64, whence int) (int64, error) {
+	next := s.offset
+	switch whence {
+	case io.SeekStart:
+		next = offset
+	case io.SeekCurrent:
+		next += offset
+	case io.SeekEnd:
+		next = s.length() + offset
+	}
+	if next < 0 {
+		return s.offset, errNegativeSeek
+	}
 	if s.rdr != nil {
 		s.rdr = nil
 	}
-	switch whence {
-	case io.SeekStart:
-		s.offset = offset
-	case io.SeekCurrent:
-		s.offset += offset
-	case io.SeekEnd:
-		s.offset = s.length() + offset
-	}
+	s.offset = next
 	return s.offset, nil
 }
 
